@@ -59,6 +59,8 @@ class Dumper:
                 return "(HFloatInf false)"
             if e.float == -float("inf"):
                 return "(HFloatInf true)"
+            if isinstance(e.float, float) and e.float == e.float:
+                return "(HFloatLit %s)" % cstr(e.float.hex())
             raise Unsupported("float literal %r" % e.float)
         if n == "EFunc":
             return "(HFunc %s %s)" % (self.ident(e.name), self.args(e.args))
